@@ -35,8 +35,8 @@ def tla_inputs(inputs):
     for i in inputs:
         steps = ", ".join('[op |-> %s, obj |-> %s, to |-> %s, n |-> %d, res |-> %s]' % (
             tla_str(s["op"]), tla_str(s["obj"]), tla_str(s["to"]), s["n"], tla_str(s.get("res", "ok"))) for s in i.get("steps") or [])
-        recs.append('[name |-> %s, fmt |-> %s, L |-> %d, olen |-> %d, opfx |-> %d, end |-> %s, steps |-> <<%s>>]' % (
-            tla_str(i["name"]), tla_str(i["fmt"]), i["L"], i["olen"], i["opfx"], tla_str(i["end"]), steps))
+        recs.append('[name |-> %s, fmt |-> %s, L |-> %d, olen |-> %d, opfx |-> %d, end |-> %s, left |-> %d, steps |-> <<%s>>]' % (
+            tla_str(i["name"]), tla_str(i["fmt"]), i["L"], i["olen"], i["opfx"], tla_str(i.get("end") or "ok"), i.get("left", -1), steps))
     return "<<" + ",\n  ".join(recs) + ">>"
 
 
@@ -140,6 +140,9 @@ def run(ctx):
     obs_path = ctx.harness("vhc16", ["confirm", "-falco", falco, "-dir", base, "-extract", exp, "-j", str(min(ctx.workers, 16))],
                            stdin_path=sp, env=seed_env, out_name="observations.jsonl")
     obs = list(ctx.read_results(obs_path))
+    for o in obs:
+        if (o.get("file") or {}).get("b") == "other":
+            o["file"]["n"] = 0           # the model does not predict the length of a mixture
     if len(obs) != len(specs):
         raise MachineryFault("confirm returned %d observations for %d runs" % (len(obs), len(specs)))
     realised_keys, unreal = set(), []
@@ -166,6 +169,8 @@ def run(ctx):
             if "files" in rec:
                 multi_files = rec["files"]
             else:
+                if rec["file"]["b"] == "other":
+                    rec["file"]["n"] = 0
                 multi_obs.append(rec)
         if not multi_files or not multi_obs:
             raise MachineryFault("multi-file run produced nothing (dead driver)")
